@@ -50,6 +50,30 @@ T = {
  "C17-C": ("C17", "tui/input/mod.rs: Enter no longer records whitespace-only lines in the history, so handle_input re-executes the previous command line without a notification", "an effectful command, then a line of only blanks + Enter"),
  "C17-D": ("C17", "tui/program_help_sidebar/program_display.rs: scrolling fix `top + area_height - 1` underflows when the program pane has zero rows", "terminal height exactly 28 while the input starts with `set ` (14-line help page)"),
  "C17-E": ("C17", "tui/input/mod.rs: Up/Down folded into recall(); the None case clears the line but does not reset the cursor", "`x` Enter Up Down, then any character or Backspace"),
+ "C17-F": ("C17", "tui/program_help_sidebar/program_display.rs: over-wide program lines are cut with a byte slice and end in an ellipsis: drawing panics when a multi-byte character of a loaded program line straddles the cut", "a loaded program with a non-ASCII character around byte 33 of a line (e.g. a comment starting `; Überlauf`)"),
+ "C17-G": ("C17", "tui/notification.rs: notifications wrap long lines but the height limit counts text lines, not rows drawn: a very long notification runs past the buffer and panics", "a notification of about 1000+ characters at a small terminal, e.g. the parser error for a 1500-character faulty line after `load`"),
+ "C17-H": ("C17", "tui/program_help_sidebar/mod.rs (SpacedStr): the gap is computed as width - left - right: subtraction overflow when the program file name is longer than 27 characters (builds with overflow checks)", "`load` of a path longer than the info pane allows"),
+ "C17-I": ("C17", "tui/supervisor_wrapper.rs: `load PATH` re-applies the --fc/--fd/--fe/--ff values the session was started with after Machine::load", "a session started with non-zero input-register flags, then `load`"),
+ "C12-E": ("C12", "runner/mod.rs (lib): the scheduled CPU reset is applied before the interrupt of the same cycle instead of after it", "one cycle in both the interrupt and the reset list while the key interrupt is enabled"),
+ "C12-F": ("C12", "emulator-2a/src/runner/mod.rs (binary): expectations.verify(..)? now precedes print_run_results: a failing `run .. verify ..` exits 1 but prints no Cycles/State/FE/FF", "a run whose verification fails"),
+ "C01-E": ("C01", "control store word 0x047 (CALL's INC PC): MAC1 set, the next micro-address depends on the carry of PC+1: a CALL whose operand byte sits at 0xFF (PC wraps to 0x00) skips the push of the return address", "CALL located at 0xFE/0xFF, i.e. executed from the input registers"),
+ "C01-F": ("C01", "control store word 0x055 (post-increment of CMP's (Rd+) / ((Rd+)) destination): MAC1 set: when the pointer register wraps 0xFF -> 0x00 the COM step is skipped and the flags are those of dst+src+1", "CMP with destination (Rd+) or ((Rd+)) and Rd = 0xFF"),
+ "C15-D": ("C15", "raw/mod.rs write_to_memory: wait condition `<= 0xF0` instead of `<= 0xEF`: a store to exactly 0xF0 costs one extra clock edge", "a store to address 0xF0"),
+ "C09-F": ("C09", "control store word 0x0AA (write-back of DEC ((Rd+)), opcodes 0x5C-0x5F): NA2 flipped: the sequencer runs through the unprogrammed word 0x0AF into the DEC Rd word and still completes", "opcode 0x5C-0x5F (not emitted by the assembler)"),
+ "C04-E": ("C04", "signals.rs interrupt_logic_1: the key flip-flop is cleared only when IE is also set: a press sampled while IE is clear (inside the routine, during the entry, in a DI section) survives and is taken after RETI / EI", "a press while IE is clear — the statement says nothing about whether such a press is held or forgotten (DESIGN.md section 6, C04): NOT a violation as the property is read here, and by design not reported"),
+ "C04-F": ("C04", "bus.rs is_key_edge_int_enabled tests micr == KEY_EDGE instead of contains: key presses are ignored when any other mask bit is set alongside bit 0", "the program enables the key with a value like 0x03 or 0x11 instead of 0x01"),
+ "C05-E": ("C05", "raw/mod.rs is_program_counter_valid: `pc < n.saturating_add(1)`: identical for limits 0..254, but with *PROGRAMSIZE 255 the machine error-stops when PC becomes 0xFF", "limit 255 and PC reaching 0xFF"),
+ "C05-F": ("C05", "raw/mod.rs is_stackpointer_valid computed from the stack size with the lower band edge off by one: SP = 0xD1/0xC1/0xB1/0xA1 stays Running inside the forbidden band", "LDSP to exactly the lowest byte of the band, or POP/RET from below"),
+ "C07-E": ("C07", "machine/mod.rs Machine::load: cpu_reset() at the end instead of master_reset() at the start: input registers, timer configuration and board outputs survive a load", "non-zero input registers / board outputs / timer before a load"),
+ "C07-F": ("C07", "board.rs Board::master_reset also removes the status level bit of every UIO pin configured as output", "a UDR write making a pin an output, the pin driven high, then master_reset or load"),
+ "C11-E": ("C11", "machine/mod.rs: the assembly step does two fixed edges when resting on a boundary and then a do-while: one edge too many when the step is issued exactly on the memory-wait edge of a fetch or when opcodes come from 0xF0-0xFF", "step issued on the wait edge of a fetch, or code executing from the I/O page"),
+ "C13-D": ("C13", "raw/mod.rs apply_pending_register_writes: unreachable!() when a flag update and a write to R4 coincide — the last micro word of LDFR", "executing any LDFR"),
+ "C10-E": ("C10", "bus.rs: while the interrupt timer is enabled, write(0xFC, v) also overwrites input register FC", "write 0b1001_xxxx to 0xFD, then write 0xFC, then read 0xFC"),
+ "C10-F": ("C10", "bus.rs Bus::read rewritten as a match whose default arm is RAM (ram[addr % RAM_SIZE]); the arm for 0xF8 was dropped: read(0xF8) returns RAM cell 0x08", "non-zero RAM[0x08], then a read of 0xF8"),
+ "C10-G": ("C10", "bus.rs read(0xFA) returns uart_send instead of uart_recv: a byte written to the UART transmit register leaks into the receive side", "write 0xFA, then read 0xFA"),
+ "C14-E": ("C14", "board.rs: comparators compare against the stored DAC voltage; set_digital_output2 stores it after update_comp2(): a DAC2 write moves comparator 2 (and its edge interrupt) only on the next event", "a write to 0xF1 that should move comparator 2 (non-zero AI2/temperature)"),
+ "C14-F": ("C14", "board.rs: the three UIO setters folded into one helper where the direction check guards only the status-bit update: an external change on an output-configured pin still raises the interrupt flip-flop when that pin is the selected source", "UIO pin configured as output and selected as interrupt source, then an external change with the configured polarity"),
+ "C14-G": ("C14", "board.rs set_jumper1 condensed to `changed && (falling || !FALLING)`: pulling jumper 1 raises the interrupt even when the rising edge is configured", "source Jumper1, rising polarity, jumper 1 plugged, then unplugged"),
  "C17-B": ("C17", "tui/input/parser.rs: nr_bin folds bits with shifts instead of from_str_radix: a 0b literal with more than 8 significant bits is truncated mod 256 instead of rejected", "`FC = 0b100000000`, `set IRG = 0b111111111`"),
 }
 for sid, (prop, what, needs) in sorted(T.items()):
